@@ -324,6 +324,7 @@ func (e *Exec) doCall(fn *ssa.Function, fc *FuncContract, st *State, cc *ssa.Cal
 	if cc.IsInvoke() {
 		e.check(st, "nil", "invoke:"+e.srcText(cc.Value.Pos())+"."+cc.Method.Name(), fmt.Sprintf("(not (= (i-tag %s) 0))", fv.S), pos)
 		e.countCall(st, cc.Method.Name())
+		e.beforeCall(st, cc.Method.Name(), pos, args)
 		// interface method contract?
 		if ic := e.eng.ifaceContract(cc); ic != nil {
 			all := append([]Val{fv}, args...)
@@ -345,7 +346,7 @@ func (e *Exec) doCall(fn *ssa.Function, fc *FuncContract, st *State, cc *ssa.Cal
 	callee := cc.StaticCallee()
 	if callee != nil {
 		e.countCall(st, callee.Name())
-		e.beforeCall(st, callee.Name(), pos)
+		e.beforeCall(st, callee.Name(), pos, args)
 	}
 	if callee == nil && fv.Fn != nil {
 		callee = fv.Fn
@@ -853,9 +854,28 @@ func (e *Exec) countCall(st *State, name string) {
 
 // beforeCall: `before <callee>: <expr>` clauses are obligations at every call of
 // <callee> in the function under contract (then assumed).
-func (e *Exec) beforeCall(st *State, name string, pos token.Pos) {
+func (e *Exec) beforeCall(st *State, name string, pos token.Pos, args []Val) {
 	if e.fc == nil || e.curFn != e.fn {
 		return
+	}
+	for _, cl := range e.fc.Lists["use_before"] {
+		// use_before <callee>: <axiom_ax(args)> — instance of an axiom schema, assumed at the call
+		j := strings.Index(cl.Expr, ":")
+		if j < 0 || strings.TrimSpace(cl.Expr[:j]) != name {
+			continue
+		}
+		c := e.specEnv(st, e.entry)
+		if e.curInstr != nil && e.curInstr.Block() != nil {
+			dummy := &loopInfo{header: e.curInstr.Block(), body: map[*ssa.BasicBlock]bool{}}
+			for k, v := range e.loopVars(e.fn, dummy, st, e.curInstr.Block()) {
+				if _, isParam := c.vars[k]; !isParam {
+					c.vars[k] = v
+				}
+			}
+		}
+		if err := e.useHint(c, st, strings.TrimSpace(cl.Expr[j+1:])); err != nil {
+			e.note("CONTRACT-ERROR use_before: %v", err)
+		}
 	}
 	for i, cl := range e.fc.Lists["before"] {
 		j := strings.Index(cl.Expr, ":")
@@ -870,6 +890,11 @@ func (e *Exec) beforeCall(st *State, name string, pos token.Pos) {
 				if _, isParam := c.vars[k]; !isParam {
 					c.vars[k] = v
 				}
+			}
+		}
+		for ai, a := range args {
+			if a.A == nil && a.Fn == nil && a.Tup == nil && a.S != "" {
+				c.vars[fmt.Sprintf("arg%d", ai)] = a
 			}
 		}
 		c.where = fmt.Sprintf("%s:%d", cl.File, cl.Line)
